@@ -8,6 +8,10 @@ func init() {
 		"Seeded search over schedules and scripts of config updates (add/remove/reorder/re-add priorities, change a child's policy, empty list), child state reports made from the children's own goroutines (also at the exact instant a failover timer fires or a config update is in progress), ResolverError, and waits placed on and around the 10 s failover and 15 min cache deadlines. Oracle at every quiescent point: the started children (observed through ExitIdle reaching exactly them) are the prefix c0..cu of the configured priorities, every ci above cu has failed (TRANSIENT_FAILURE, or CONNECTING with its gRFC A56 failover timer expired / not running), cu is READY/IDLE/within its timeout or the lowest, the parent's latest state+picker is cu's latest report (identified by using the picker), nothing is started with an empty list, every child is closed after Close. Sampling, not proof.",
 		"Judged at quiescence only: transient parent pickers between two quiescent points are not judged (the statement's 'always' is read as 'whenever the policy has finished reacting'). Where same-instant events leave the order open (report racing with a restart of the same child, config update that may have restarted a child) the model keeps all possible timer states and asserts only what holds in all of them. A child re-started from the cache gets a fresh timeout (grpc-go's reading of 'initial'). Trusted: detrt, synctest clock, the stubs.",
 		"seeded schedule search over the real priority policy with stub children, recording ClientConn and a timer-state reference model"))
+	regProp("C40", wlx("internal/xds/balancer/outlierdetection (balancer.go, callcounter.go, subconn_wrapper.go, config.go) with internal/balancer/gracefulswitch underneath").doc(
+		"TODO",
+		"TODO",
+		"seeded schedule search over the real outlier_detection policy with a stub child, fake SubConns, caller goroutines and an observation-following gRFC A50 reference evaluator"))
 }
 
 func wlx(real ...string) *Prop {
